@@ -31,7 +31,7 @@ Abstractions (the tie in checklib/C05.py feeds the model exactly this view of a 
   patterns, or `label + ival` for an address constant).  That translation-time and run-time evaluation produce these same
   values is property C07/C01/C02, not C05; C05 is about *where* each value lands.
 * A type is given with its layout (`MemInfo.offset`, bit offsets, sizes) as struct_decl/union_decl computed it (C08).
-* `Initializer.expr` exists in C on every node; the model keeps it on scalar and struct nodes only: on array and union
+* `Initializer.expr` exists in C on every node; the model keeps it on scalar, struct and union nodes only: on array
   nodes it is never read by either back end.
 * An `Initializer` with `is_flexible` is the node `.flex`.  C keeps `array_len` = -1 (object of unknown bound) or 0
   (flexible array member, after struct_members) for it; the only reader of that length before resolution is
@@ -99,6 +99,7 @@ structure Expr where
   f80 : Nat                     -- … to long double (80 bits)
   label : Option String := none -- address constant `label + ival`
   isStruct : Bool := false      -- the expression has struct type (`struct T x = y;`)
+  isUnion : Bool := false       -- the expression has union type
   deriving DecidableEq, Repr, Inhabited
 
 def Expr.num (v : Int) : Expr := { ival := v, nz := v != 0, f32 := 0, f64 := 0, f80 := 0 }
@@ -124,7 +125,7 @@ inductive Init where
   | arr (cs : List Init)
   | flex
   | struct (e : Option Expr) (cs : List Init)
-  | union (mem : Option Nat) (cs : List Init)
+  | union (e : Option Expr) (mem : Option Nat) (cs : List Init)
   deriving Repr, Inhabited
 
 mutual
@@ -133,7 +134,7 @@ mutual
     | .arr a, .arr b => Init.beqList a b
     | .flex, .flex => true
     | .struct e a, .struct f b => e == f && Init.beqList a b
-    | .union m a, .union n b => m == n && Init.beqList a b
+    | .union e m a, .union f n b => e == f && m == n && Init.beqList a b
     | _, _ => false
   def Init.beqList : List Init → List Init → Bool
     | [], [] => true
@@ -150,7 +151,7 @@ mutual
     | .array e n, _ => .arr (List.replicate n (newInit e false))
     | .inc _, fl => if fl then .flex else .arr []
     | .struct ms _ f, fl => .struct none (newInitMs ms (fl && f))
-    | .union ms _ f, fl => .union none (newInitMs ms (fl && f))
+    | .union ms _ f, fl => .union none none (newInitMs ms (fl && f))
   /-- the member loop; `fl` = `is_flexible && ty->is_flexible` -/
   def newInitMs : Members → Bool → List Init
     | [], _ => []
@@ -221,32 +222,34 @@ def getChild (cs : List Init) (i : Nat) : Except Fail Init :=
 def Init.children : Init → List Init
   | .arr cs => cs
   | .struct _ cs => cs
-  | .union _ cs => cs
+  | .union _ _ cs => cs
   | _ => []
 
 def Init.withChildren : Init → List Init → Init
   | .arr _, cs => .arr cs
   | .struct e _, cs => .struct e cs
-  | .union m _, cs => .union m cs
+  | .union e m _, cs => .union e m cs
   | i, _ => i
 
 def Init.setChild (init : Init) (i : Nat) (c : Init) : Init :=
   init.withChildren (init.children.set i c)
 
-/-- `init->expr = e` (kept on scalar and struct nodes only, see the header) -/
+/-- `init->expr = e` (kept on scalar, struct and union nodes only, see the header) -/
 def Init.setExpr : Init → Option Expr → Init
   | .leaf _, e => .leaf e
   | .struct _ cs, e => .struct e cs
+  | .union _ m cs, e => .union e m cs
   | i, _ => i
 
 def Init.expr? : Init → Option Expr
   | .leaf e => e
   | .struct e _ => e
+  | .union e _ _ => e
   | _ => none
 
 /-- `init->mem = mem` -/
 def Init.setMem : Init → Nat → Init
-  | .union _ cs, k => .union (some k) cs
+  | .union e _ cs, k => .union e (some k) cs
   | i, _ => i
 
 def memTy (ms : Members) (i : Nat) : Except Fail Ty :=
@@ -261,7 +264,7 @@ mutual
     | .arr cs => hasExprList cs
     | .flex => false
     | .struct e cs => e.isSome || hasExprList cs
-    | .union m cs => m.isSome || hasExprList cs
+    | .union e m cs => e.isSome || m.isSome || hasExprList cs
   def hasExprList : List Init → Bool
     | [] => false
     | c :: cs => hasExpr c || hasExprList cs
@@ -353,6 +356,14 @@ def skipUnnamedBf (ms : Members) : Nat → Nat → Nat
     | some (mi, _) => if mi.bf.isSome && mi.name.isNone then skipUnnamedBf ms n (i+1) else i
     | none => i
 
+/-- `while (mem->next && mem->is_bitfield && !mem->name) mem = mem->next;` starting at index `i` (union default member) -/
+def firstNamed (ms : Members) : Nat → Nat → Nat
+  | 0, i => i
+  | n+1, i =>
+    match ms[i]?, ms[i+1]? with
+    | some (mi, _), some _ => if mi.bf.isSome && mi.name.isNone then firstNamed ms n (i+1) else i
+    | _, _ => i
+
 abbrev P := Except Fail (Init × List ITok)
 
 /-! ## The mutually recursive parser (fuel = one unit per C call or loop iteration) -/
@@ -388,7 +399,8 @@ mutual
           let c ← getChild init.children k
           let (c', tok) ← designation f mty tok c
           let init := (init.setChild k c').setExpr none
-          structInit2 f ms tok init (k + 1) true
+          -- `bool first = (mem == init->ty->members)` is false for `mem->next`: a comma comes first
+          structInit2 f ms tok init (k + 1) false
         | .union ms _ _ => do
           let (k, anon) ← structDesignator name ms 0
           let tok := if anon then toks else r
@@ -564,22 +576,28 @@ mutual
         let init := init.setMem k
         let c ← getChild init.children k
         let (c', tok) ← designation f mty tok c
-        let rest ← skipTok .rbrace "}" tok
-        pure (init.setChild k c', rest)
-      | .lbrace :: r => do
-        let init := init.setMem 0
-        let mty ← memTy ms 0
-        let c ← getChild init.children 0
-        let (c', tok) ← initializer2 f mty r c
         let tok := match tok with | .comma :: t => t | t => t
         let rest ← skipTok .rbrace "}" tok
-        pure (init.setChild 0 c', rest)
-      | _ => do
-        let init := init.setMem 0
-        let mty ← memTy ms 0
-        let c ← getChild init.children 0
-        let (c', rest) ← initializer2 f mty toks c
-        pure (init.setChild 0 c', rest)
+        pure (init.setChild k c', rest)
+      | _ =>
+        -- by default the first named member: `while (mem->next && mem->is_bitfield && !mem->name) mem = mem->next`
+        if ms.isEmpty then .error (.crash "union without members: init->mem->next on NULL")
+        else
+          let k := firstNamed ms ms.length 0
+          let init := init.setMem k
+          match toks with
+          | .lbrace :: r => do
+            let mty ← memTy ms k
+            let c ← getChild init.children k
+            let (c', tok) ← initializer2 f mty r c
+            let tok := match tok with | .comma :: t => t | t => t
+            let rest ← skipTok .rbrace "}" tok
+            pure (init.setChild k c', rest)
+          | _ => do
+            let mty ← memTy ms k
+            let c ← getChild init.children k
+            let (c', rest) ← initializer2 f mty toks c
+            pure (init.setChild k c', rest)
   termination_by structural f _ _ _ => f
 
   /-- `initializer2` -/
@@ -601,11 +619,18 @@ mutual
           let (e, rest) ← parseAssign toks
           if e.isStruct then pure (init.setExpr (some e), rest)
           else structInit2 f ms toks init 0 true
-      | .union ms _ _ => unionInit f ms toks init
+      | .union ms _ _ =>
+        if startsBrace toks then unionInit f ms toks init
+        else do
+          -- `union T x = y;`
+          let (e, rest) ← parseAssign toks
+          if e.isUnion then pure (init.setExpr (some e), rest)
+          else unionInit f ms toks init
       | .scalar _ _ =>
         match toks with
         | .lbrace :: r => do
           let (init, tok) ← initializer2 f ty r init
+          let tok := match tok with | .comma :: t => t | t => t
           let rest ← skipTok .rbrace "}" tok
           pure (init, rest)
         | _ => do
@@ -750,8 +775,8 @@ mutual
     | .arr cs, .array elem _, im, off => writeGvarArr cs elem im off
     | .flex, .array _ _, im, _ => .ok im                           -- unresolved flexible member: array_len 0
     | .struct _ cs, .struct ms _ _, im, off => writeGvarMs cs ms im off
-    | .union none _, .union _ _ _, im, _ => .ok im
-    | .union (some k) cs, .union ms _ _, im, off => writeGvarNth cs ms k im off
+    | .union _ none _, .union _ _ _, im, _ => .ok im
+    | .union _ (some k) cs, .union ms _ _, im, off => writeGvarNth cs ms k im off
     | .leaf none, .scalar _ _, im, _ => .ok im
     | .leaf (some e), .scalar sz kind, im, off => writeGvarLeaf e sz kind im off
     | _, _, _, _ => .error (.crash "initializer tree does not have the shape of the type")
@@ -776,7 +801,10 @@ mutual
             let loc := off + mi.offset
             let sz := t.size.toNat
             let oldval ← readBuf im.bytes loc sz
-            let newval := u64 e.ival
+            -- `if (mem->ty->kind == TY_BOOL) newval = … != 0`
+            let newval := match t with
+              | .scalar _ .bool => if e.nz then 1 else 0
+              | _ => u64 e.ival
             let mask := (2 ^ bw - 1) % 18446744073709551616
             let combined := oldval ||| (((newval &&& mask) <<< bo) % 18446744073709551616)
             let bytes ← writeBuf im.bytes loc combined sz
@@ -832,7 +860,8 @@ mutual
     | .flex, .array _ _, _, _ => .ok []
     | .struct none cs, .struct ms _ _, path, _ => createLvarMs cs ms path
     | .struct (some e) _, .struct _ sz _, path, _ => .ok [{ path := path, kind := .copy sz, e := e }]
-    | .union mem cs, .union ms _ _, path, _ => createLvarNth cs ms (mem.getD 0) path
+    | .union none mem cs, .union ms _ _, path, _ => createLvarNth cs ms (mem.getD 0) path
+    | .union (some e) _ _, .union _ sz _, path, _ => .ok [{ path := path, kind := .copy sz, e := e }]
     | .leaf none, .scalar _ _, _, _ => .ok []
     | .leaf (some e), .scalar sz kind, path, bf =>
       match bf with
